@@ -622,15 +622,17 @@ Section LPIProofs.
       rewrite dot_map_combine in Hrow by exact Hl'. exact Hrow. }
     destruct compat as [|i [|i2 rest]] eqn:Ec.
     - eapply HLP; exact H.
-    - inversion H; subst. clear H.
-      destruct compat_props as [_ [Hlt _]]. fold compat in Hlt. rewrite Ec in Hlt. inversion Hlt as [|? ? Hi _]; subst.
-      destruct Hwf as [_ [_ [_ Hp]]]. rewrite Forall_forall in Hp.
+    - destruct compat_props as [_ [Hlt _]]. fold compat in Hlt. rewrite Ec in Hlt. inversion Hlt as [|? ? Hi _]; subst.
+      destruct Hwf as [Hpn [_ [_ Hp]]]. rewrite Forall_forall in Hp.
       destruct (Hp (nth i pts []) (nth_In _ _ Hi)) as [_ [Hnn Hsz]].
       assert (H01 : 0 <= 1) by lra.
       pose proof (shortcut_fold (nth i pts []) (nonZeroStates point) 1 Hnn Hsz H01) as [H1 [H2 H3]].
       unfold lpi_feas. rewrite Ec.
-      split; [constructor; [exact H1| constructor]|]. split; [reflexivity|].
-      intros s Hs. cbn [combine map qsum fst snd]. specialize (H3 s Hs). lra.
+      destruct (Qlt_le_dec 0 _) in H; inversion H; subst; clear H.
+      + split; [constructor; [lra| constructor]|]. split; [reflexivity|].
+        intros s Hs. cbn [combine map qsum fst snd]. pose proof (nthq_nonneg point s Hpn). lra.
+      + split; [constructor; [exact H1| constructor]|]. split; [reflexivity|].
+        intros s Hs. cbn [combine map qsum fst snd]. specialize (H3 s Hs). lra.
     - eapply HLP; exact H.
   Qed.
 
@@ -820,7 +822,8 @@ Section LPIValueThm.
       (* u is the objective coef . c in the LP branch and c0 * (val - comp.cv) in the shortcut *)
       unfold lpi_solve in Es. destruct (compatiblePoints point pts) as [|i1 [|i2 rest2]] eqn:Ec2.
       + discriminate Ec.
-      + inversion Es; subst. unfold lpi_coef. cbn [map dot].
+      + destruct (Qlt_le_dec 0 _) in Es; inversion Es; subst; unfold lpi_coef; cbn [map dot];
+          [apply Qle_lteq; right; ring|].
         (* comp . cv restricted to the non-zero states equals the full dot product *)
         assert (E : dot (nth i1 pts []) (cornerVals ubQ) ==
                     qsum (map (fun s => nthq (nth i1 pts []) s * nthq (cornerVals ubQ) s) (nonZeroStates point))).
